@@ -269,8 +269,9 @@ def run(ctx, sf):
             extra = sim.rand_passive_op(rng, nprng, n) if it % 8 == 1 else sim.rand_gaussian_prep_op(rng, nprng, n)
             spec["ops"].insert(rng.randint(0, len(spec["ops"])), extra)
             fock = False
-        if it % 5 == 3 and n >= 2:      # registers with holes / late modes (index != position), inserted last
-            spec = progs.with_del_new(rng, spec, p_del=1.0, p_new=0.5)
+        if it % 3 == 1 and not (it % 4 == 1):      # registers with holes / late modes (index != position), inserted last
+            spec = progs.with_del_new(rng, spec, p_del=(0.7 if n >= 2 else 0.0), p_new=0.7)
+            ctx.tally("with-del-new:" + "+".join(o["cls"] for o in spec["ops"] if o["cls"] in ("Del", "New")))
             spec["ops"] = [o for o in spec["ops"] if o["cls"] != "MeasureFock"]
         ctx.count("program:n=%d" % n, spec, nontrivial(spec), sample=spec)
         for o in spec["ops"]:
